@@ -8,7 +8,7 @@ from lib.tlc import MachineryError
 DEVS = ["Dev_C13_ReentryLeak", "Dev_C12_InputMomentum", "Dev_C12_ScaleOne", "Dev_C10_GroupSizeLost", "Dev_C10_LayerNormTarget", "Dev_C10_ScaleDtype",
         "Dev_C09_DeepCopyQBits", "Dev_C08_ScaleDtype", "Dev_C05_CopyPlain", "Dev_C07_F16Float8Act", "Dev_C08_LayerNormNoAffine", "Dev_C07_IntMMK1"]
 INVS = ["SwapExactlyEligible", "FrozenNeverStale", "NoStaleWeights", "CalibrationScoped"]
-PROPS = ["FreezePreservesDenotation", "FrozenNoGrad", "EmaLawStep", "InferencePure", "RoundTripDenotation"]
+PROPS = ["MovePreservesDenotation", "FreezePreservesDenotation", "FrozenNoGrad", "EmaLawStep", "InferencePure", "RoundTripDenotation"]
 FOCUS = {"C08": ["all", "train"], "C09": ["freeze"], "C10": ["serial"], "C11": ["train"], "C12": ["calib"], "C13": ["calib", "all"]}
 
 
@@ -36,7 +36,7 @@ def trace_consts(c, judge):
 def model_and_histories(c, judge, extra_skeletons=()):
     off = {"Dev_C12_InputMomentum": False, "Dev_C10_GroupSizeLost": False, "StreamlineTypeTest": True}
     c.mc("Lifecycle", life_cfg(c, "MC_Lifecycle.cfg", 4 if c.quick else 5, "all", off, INVS, PROPS), workers=12, timeout=1500,
-         require_actions=["Quantize", "ActForward", "ActEnterCalib", "ActReEnter", "ActCalibBatch", "ActRaiseIn", "ActExitCalib", "ActFreeze", "ActOptStep", "ActSave", "ActDeepCopy"] + ([] if c.quick else ["ActLoad"]))
+         require_actions=["Quantize", "ActForward", "ActEnterCalib", "ActReEnter", "ActCalibBatch", "ActRaiseIn", "ActExitCalib", "ActFreeze", "ActOptStep", "ActSave", "ActDeepCopy", "ActToDevice"] + ([] if c.quick else ["ActLoad"]))
     if judge == "C12":
         c.mc_expect_violation("Lifecycle", life_cfg(c, "MC_dev.cfg", 4, "calib", {"Dev_C12_InputMomentum": True, "Dev_C10_GroupSizeLost": False, "StreamlineTypeTest": True}, (), ["EmaLawStep"]), "EmaLawStep")
         # streamlining (outside the listed properties, evidence only): the documented intent holds in the model, the as-built type test breaks it
